@@ -39,6 +39,10 @@ KIND_NAMES = {
     203: 'C02/section_io: filesection.Piece.Write+ReadAt vs SectionIO.write_secs/read_at',
     204: 'C02/create_jobs: urldownloader.createJobs vs SectionIO.create_jobs',
     1601: 'C16/tier: tracker.Tier vs Tier.v (crun)',
+    1201: 'C12/mse_honest: real HandshakeOutgoing against real HandshakeIncoming over a transport with scripted fragmentation; the four pads are steered through crypto/rand.Reader (0, 510, 511, small, random), keys, offers, policies (rain accept policy with/without force, hostile constant callback), initial payloads 0..65535 and wrong keys are generated; every byte on the wire in both directions, both outcomes, the selected method, the initial payload and the application data read on both sides vs Mse.honest',
+    1202: 'C12/mse_responder: a scripted initiator (pads 0..712, bad req1 / key hash / VC, provide 0 and odd values, oversize PadC, lying payload length, truncation anywhere, short or garbage streams) against the real HandshakeIncoming vs Mse.responder (wire bytes, outcome class, selected method, everything the application reads)',
+    1203: 'C12/mse_initiator: a scripted responder (pads 0..712, bad VC, selections 0 / several bits / not offered / high bits, oversize and lying PadD, truncation, short streams, second and fourth message coalesced) against the real HandshakeOutgoing vs Mse.initiator',
+    1204: 'C12/policy: every consistent ForceIncoming/ForceOutgoing/DisableOutgoing setting through the real acceptor, incoming handshaker, dialer and outgoing handshaker of a torrent in the stepped loop, against scripted TCP peers (plain BitTorrent, MSE offering RC4 / clear / both; legacy clear-text-only listener, MSE listeners preferring RC4 / clear text / answering an invalid selection / hanging up) vs Mse.accept_policy and Mse.dial_policy: outcome class, connections made, which of them were clear text, clear text seen on the wire',
     1901: 'C19/private_flag: metainfo.NewInfo on generated encodings of the private field (integers incl. out of int64 range, strings, lists, dictionaries, absent) vs Priv.priv_of_raw',
     1902: 'session/private: private, public and magnet torrents in the stepped event loop with a scripted HTTP tracker and scripted peers, DHT/PEX/dial switches on and off, optionally after a session restart: addresses known by source, DHT announcer and request queue, PEX senders, magnet export, metadata adoption, user agent / peer id / client version, dial of a probe listener vs Priv.v',
 }
@@ -70,7 +74,7 @@ PROPS = {
         'assumptions': ['only the client writes to the files during the history (external changes are C04)'],
     },
     'C08': {
-        'kinds': {1102: {'quick': 2500, 'thorough': 60000}, 1103: {'quick': 48, 'thorough': 600}, 101: {'quick': 1500, 'thorough': 40000}, 1303: {'quick': 1500, 'thorough': 40000}, 303: {'quick': 160, 'thorough': 2400}},
+        'kinds': {1102: {'quick': 2500, 'thorough': 60000}, 1103: {'quick': 48, 'thorough': 600}, 101: {'quick': 1500, 'thorough': 40000}, 1303: {'quick': 1500, 'thorough': 40000}, 303: {'quick': 1500, 'thorough': 30000}},
         'trusted': ['the dispatch of torrent.run() is mirrored by hand in VLoop.PumpEx', 'Go runtime: a panic in a handler is caught by the harness and reported as a crash; a handler that does not return within the per-case limit is reported as a hang'],
         'assumptions': [],
     },
@@ -78,6 +82,11 @@ PROPS = {
         'kinds': {101: {'quick': 2500, 'thorough': 60000}, 102: {'quick': 800, 'thorough': 20000}},
         'trusted': ['the dispatch of torrent.run() is mirrored by hand in VLoop.PumpEx', 'WriteCacheSize is large enough that the write-cache manager never defers a piece download in the generated scenarios'],
         'assumptions': ['the history was accepted by the model (s_bad = 0), which the correspondence establishes per generated history'],
+    },
+    'C12': {
+        'kinds': {1201: {'quick': 500, 'thorough': 8000}, 1202: {'quick': 700, 'thorough': 12000}, 1203: {'quick': 700, 'thorough': 12000}, 1204: {'quick': 600, 'thorough': 12000}},
+        'trusted': ['SHA-1 and the Diffie-Hellman arithmetic of math/big: each side\'s req1/req2/req3 hashes and RC4 keys are oracle inputs of the model, recomputed by the harness from the private keys it served through crypto/rand.Reader (C12_dh_shared_secret proves that both secrets are equal)', 'crypto/rand.Reader is replaced while these cases run (pad lengths steered, private keys remembered); rand.Int(reader, 512) reads two bytes', 'the TCP stack of the loopback interface for kind 1204'],
+        'assumptions': ['the synchronisation patterns do not occur in the random padding before their position (a 20-byte SHA-1 value, 8 bytes of key stream: probability below 2^-50 per handshake); stated as the no_early premises', 'the transport cannot deliver bytes of a message before it was sent: the first read of a side returns at most its peer\'s first message'],
     },
     'C19': {
         'kinds': {1901: {'quick': 3000, 'thorough': 60000}, 1902: {'quick': 1200, 'thorough': 30000}},
@@ -105,7 +114,7 @@ PROPS = {
         'assumptions': ['the torrent loop calls the picker under the glue discipline modelled by Picker.pstep'],
     },
     'C03': {
-        'kinds': {301: {'quick': 3000, 'thorough': 60000}, 302: {'quick': 3000, 'thorough': 60000}, 303: {'quick': 160, 'thorough': 2400}},
+        'kinds': {301: {'quick': 3000, 'thorough': 60000}, 302: {'quick': 3000, 'thorough': 60000}, 303: {'quick': 1500, 'thorough': 30000}},
         'trusted': ['container/heap keeps the least recently used item at index 0; time.AfterFunc TTL expiry is not exercised (TTL one hour)'],
         'assumptions': ['0 < ReadCacheBlockSize < 2^31; piece length < 2^32'],
     },
